@@ -166,7 +166,7 @@ def run(ctx):
                         if p.out != 'ret' or po.out != 'ret': continue
                         G = mgrid(p.ret, 'Rows', 4); Go = subs_grid(mgrid(po.ret, 'Cols', 4), mapping)
                         grid_eq(ctx, '%s/sibling/path%d' % (key, pi), G, Go, 'alg≡: row-major and column-major fast inverse agree in (i,j) coordinates', w)
-        except AssertionError as e:
+        except (AssertionError, KeyError, ValueError, TypeError, IndexError, ZeroDivisionError, AttributeError) as e:
             ctx.ob(key + '/paths', False, 'path structure: the analysed function has the expected (branch-free / enumerated) shape', w, 'analysable', str(e))
     ctx.floor('roots analysed', done, len(roots))
     ctx.floor('obligations', ctx.obligations, 300)
